@@ -11,6 +11,9 @@ static void d0(void *v){ calls[0]++; vals[0] = v; if (v == &a1 || v == &a2) wron
 static void d1(void *v){ calls[1]++; vals[1] = v; if (v == &a0 || v == &a2) wrong = 1; }
 static void d2(void *v){ calls[2]++; vals[2] = v; if (v == &a0 || v == &a1) wrong = 1; }
 int main(void){
+#if defined(GARBAGE) && !defined(VERIF_NATIVE)
+  pool_garbage();                    /* thorough tier: pool nodes start with arbitrary contents (quick: fresh_node_clean covers initialisation) */
+#endif
   static myth_tls_tree_t t[1];
   int k0 = VERIF_CHOICE(), k1 = VERIF_CHOICE(), k2 = VERIF_CHOICE();
   int has0 = VERIF_CHOICE() & 1, has1 = VERIF_CHOICE() & 1, has2 = VERIF_CHOICE() & 1;     /* key has a destructor */
@@ -35,6 +38,10 @@ int main(void){
 #if NK > 2
   if (has2) KA.keys[k2].destructor = d2;
   myth_tls_tree_set(t, k2, nn2 ? &a2 : 0);
+#else
+  /* a third key with a destructor that this thread NEVER sets */
+  ASSUME(0 <= k2 && k2 < myth_tls_n_keys && k2 != k0 && k2 != k1);
+  if (has2) KA.keys[k2].destructor = d2;
 #endif
   int nodes_used = np, leaves_used = 0;
   myth_tls_tree_fini(t, &KA);                   /* thread exit */
@@ -44,6 +51,9 @@ int main(void){
   if (!has1) CHECK(calls[1] == 0, "C11 no destructor call for a key registered without one");
   CHECK(calls[0] <= 1 && calls[1] <= 1, "C11 no destructor is called twice");
   CHECK(!wrong, "C11 no destructor is called with another key's value");
+#if NK == 2
+  CHECK(calls[2] == 0 || vals[2] == 0, "C11 a key the thread never set gets no destructor call with a (stale) value");
+#endif
 #if NK > 2
   if (has2 && nn2) CHECK(calls[2] == 1 && vals[2] == &a2, "C11 destructor of key 2 called exactly once with its value");
   if (!has2) CHECK(calls[2] == 0, "C11 no destructor call for a key registered without one");
